@@ -44,6 +44,7 @@ def main():
     os.rmdir(tree)
     assert sh("git", "-C", REPO, "worktree", "add", "--detach", tree, "HEAD").returncode == 0
     bad = 0
+    md = []
     try:
         for p in patches:
             r = sh("git", "-C", tree, "apply", p)
@@ -54,6 +55,12 @@ def main():
                 with ThreadPoolExecutor(16) as ex:
                     res = list(ex.map(lambda pr: run_prop(pr, tree, tier), props))
                 alarms = [(pr, rc, ls) for pr, rc, ls in res if rc != 0]
+                rid = os.path.basename(os.path.dirname(p))
+                note = os.path.join(os.path.dirname(p), "note.txt")
+                files = sorted({ln[6:].strip() for ln in open(p) if ln.startswith("+++ b/")})
+                md.append((rid, ", ".join(f.replace("adcgen/", "") for f in files),
+                           " ".join(open(note).read().split())[:260] if os.path.exists(note) else "",
+                           "SILENT" if not alarms else "ALARM " + ", ".join(f"{pr} exit {rc}" for pr, rc, _ in alarms)))
                 if not alarms:
                     print(p, "SILENT")
                 else:
@@ -68,6 +75,16 @@ def main():
     finally:
         sh("git", "-C", REPO, "worktree", "remove", "--force", tree)
     print(f"{len(patches)} refactorings, {bad} with alarms")
+    if "--md" in sys.argv:
+        lines = ["Each refactoring was written by an independent sub-agent that saw only the library (its own scratch worktree), was "
+                 "asked for behaviour-preserving edits of the functions the rules inspect, ran the 127 tests and differential runs "
+                 "with each patch, and knew nothing about /verif. `tools/refac_eval.py` applies each patch to a scratch worktree of "
+                 f"/repo's HEAD and runs all {len(props)} checks ({tier} tier) against it; any VIOLATION or ANALYSIS-ERROR is a false alarm.",
+                 "", "| refactoring | files | what was changed | verdict of all checks |", "|---|---|---|---|"]
+        for r in md:
+            lines.append("| " + " | ".join(r) + " |")
+        lines += ["", f"{len(md)} refactorings evaluated, {bad} with alarms."]
+        open(os.path.join(HERE, "refactors", "RESULTS.md"), "w").write("\n".join(lines) + "\n")
 
 
 if __name__ == "__main__":
